@@ -132,6 +132,7 @@ class SignatureAdapter(Signature):
                         # Looks like we have no parameter for this positional
                         # argument
                         # 'too many positional arguments' forgiven
+                        parameters_ex = (param,)
                         break
 
                     if param.kind == Parameter.VAR_POSITIONAL:
